@@ -127,6 +127,41 @@ class Sparse:
         self.name = name
 
 
+class PyList:  # a python list of symbolic values
+    def __init__(self, items):
+        self.items = list(items)
+
+
+class MaskedJac:  # rows of a Jacobian selected by a mask (slice_sparse_matrix(J, inds))
+    def __init__(self, coef, mask):
+        self.coef, self.mask = dict(coef), mask
+
+
+class IntSym:  # the python int parameter `dim` of l2_norm; `is_one` = the branch assumed for `dim == 1`
+    def __init__(self, is_one):
+        self.is_one = is_one
+
+
+class G:  # (dim, size) array = reshape(x, (dim, -1), order="F"): entry [k, g] as expression in var 0 = x[dim*g+k], var 1 = sum_k x[dim*g+k]**2
+    def __init__(self, e):
+        self.e = e
+
+
+class GS:  # one number per group (column), expression in var 1 = the group's sum of squares
+    def __init__(self, e):
+        self.e = e
+
+
+class MaskedG:  # G[:, mask]
+    def __init__(self, e, mask):
+        self.e, self.mask = e, mask
+
+
+class RegObj:  # a RegularizedHeaviside instance: self._regularization = the named library function with its parameters
+    def __init__(self, fname, params):
+        self.fname, self.params = fname, params
+
+
 class Opaque:  # shapes, sizes
     def __init__(self, what):
         self.what = what
@@ -157,6 +192,7 @@ class Interp:
         self.functions = functions  # name -> FunctionDef of functions.py
         self.depth = 0
         self.guards = []  # size/ndim guards that were skipped (reported)
+        self.asserts = []
 
     # ---- types for isinstance
     def _type_names(self, node):
@@ -167,7 +203,7 @@ class Interp:
             return out
         return [ast.unparse(node)]
 
-    TYPEMAP = {"int": Sc, "float": Sc, "np.ndarray": Arr, "sps.spmatrix": Sparse, "sps.sparray": Sparse,
+    TYPEMAP = {"int": Sc, "float": Sc, "np.ndarray": (Arr, GS), "sps.spmatrix": (Sparse, Jac), "sps.sparray": (Sparse, Jac),
                "pp.ad.AdArray": Ad, "AdArray": Ad, "pp.matrix_operations.ArraySlicer": None}
 
     def isinstance_(self, v, tnode):
@@ -192,6 +228,9 @@ class Interp:
         if isinstance(node, ast.BoolOp):
             vals = [self.test(v, env) for v in node.values]
             return all(vals) if isinstance(node.op, ast.And) else any(vals)
+        if isinstance(node, ast.Compare) and len(node.ops) == 1 and isinstance(node.ops[0], ast.Eq) and isinstance(node.left, ast.Name) \
+                and isinstance(env.get(node.left.id), IntSym) and isinstance(node.comparators[0], ast.Constant) and node.comparators[0].value == 1:
+            return env[node.left.id].is_one
         raise TranslateError(f"unsupported test: {ast.unparse(node)}")
 
     # ---- statements
@@ -220,11 +259,35 @@ class Interp:
                 self.guards.append(ast.unparse(st.test))
                 return None
             return self.block(st.body if self.test(st.test, env) else st.orelse, env)
+        if isinstance(st, ast.Assert):
+            self.asserts.append(ast.unparse(st.test)[:80])
+            return None
+        if isinstance(st, ast.For) and isinstance(st.target, ast.Name) and isinstance(st.iter, ast.List) and not st.orelse:
+            for el in st.iter.elts:  # unrolled
+                env[st.target.id] = self.expr(el, env)
+                r = self.block(st.body, env)
+                if r is not None:
+                    return r
+            return None
+        if isinstance(st, ast.Expr) and isinstance(st.value, ast.Call):
+            self.call(st.value, env, statement=True)
+            return None
         if isinstance(st, ast.Assign) and len(st.targets) == 1:
             tgt = st.targets[0]
             val = self.expr(st.value, env)
             if isinstance(tgt, ast.Name):
                 env[tgt.id] = val
+                return None
+            if isinstance(tgt, ast.Subscript) and isinstance(tgt.value, ast.Name) and isinstance(env.get(tgt.value.id), PyList) \
+                    and isinstance(tgt.slice, ast.Constant) and isinstance(tgt.slice.value, int):
+                env[tgt.value.id].items[tgt.slice.value] = val
+                return None
+            if isinstance(tgt, ast.Subscript) and isinstance(tgt.value, ast.Name) and isinstance(env.get(tgt.value.id), G):
+                g = env[tgt.value.id]
+                m = self.gmask(tgt.slice, env)
+                if not (isinstance(val, MaskedG) and val.mask.key() == m.key() and m.kind == "gt"):
+                    raise TranslateError(f"unsupported grouped assignment: {ast.unparse(st)}")
+                g.e = ("ifgt", m.a, m.b, val.e, g.e)
                 return None
             if isinstance(tgt, ast.Attribute) and isinstance(tgt.value, ast.Name) and tgt.attr in ("val", "jac"):
                 obj = env.get(tgt.value.id)
@@ -250,10 +313,8 @@ class Interp:
                     new = val.e
                 else:
                     raise TranslateError(f"unsupported right-hand side of masked assignment: {ast.unparse(st)}")
-                if m.kind == "gt":
-                    env[tgt.value.id] = Arr(("ifgt", m.a, m.b, new, arr.e))
-                else:
-                    env[tgt.value.id] = Arr(("ifgt", m.a, m.b, arr.e, new))
+                # in place: the array object may be shared with an operand (no copy taken) -- that is checked after the call
+                arr.e = ("ifgt", m.a, m.b, new, arr.e) if m.kind == "gt" else ("ifgt", m.a, m.b, arr.e, new)
                 return None
         raise TranslateError(f"unsupported statement: {ast.unparse(st)[:120]}")
 
@@ -307,6 +368,8 @@ class Interp:
                 return getattr(base, node.attr)
             if isinstance(base, (Arr, Jac)) and node.attr in ("shape", "size"):
                 return Opaque(node.attr)
+            if isinstance(base, G) and node.attr == "shape":
+                return Opaque("gshape")
             raise TranslateError(f"unsupported attribute {ast.unparse(node)}")
         if isinstance(node, ast.UnaryOp) and isinstance(node.op, ast.USub):
             if isinstance(node.operand, ast.Constant) and isinstance(node.operand.value, (int, float)) and not isinstance(node.operand.value, bool):
@@ -328,21 +391,38 @@ class Interp:
             return self.binop(node.op, a, b, node)
         if isinstance(node, ast.Compare) and len(node.ops) == 1 and isinstance(node.ops[0], ast.Gt):
             a, b = self.expr(node.left, env), self.expr(node.comparators[0], env)
-            if isinstance(a, Arr) and isinstance(b, (Sc, Arr)):
+            if isinstance(a, (Arr, GS)) and isinstance(b, (Sc, Arr)):
                 return Mask("gt", a.e, b.e)
             raise TranslateError(f"unsupported comparison {ast.unparse(node)}")
+        if isinstance(node, ast.List):
+            return PyList([self.expr(e, env) for e in node.elts])
         if isinstance(node, ast.Subscript):
-            a, m = self.expr(node.value, env), self.expr(node.slice, env)
-            if isinstance(a, Arr) and isinstance(m, Mask):
+            a = self.expr(node.value, env)
+            if isinstance(a, PyList) and isinstance(node.slice, ast.Constant) and isinstance(node.slice.value, int):
+                return a.items[node.slice.value]
+            if isinstance(a, G):
+                return MaskedG(a.e, self.gmask(node.slice, env))
+            m = self.expr(node.slice, env)
+            if isinstance(a, (Arr, GS)) and isinstance(m, Mask):
                 return Masked(a.e, m)
             raise TranslateError(f"unsupported subscript {ast.unparse(node)}")
         if isinstance(node, ast.Call):
             return self.call(node, env)
         raise TranslateError(f"unsupported expression {ast.unparse(node)[:100]}")
 
+    def gmask(self, sl, env):
+        """the index `[:, mask]` of a grouped array"""
+        if isinstance(sl, ast.Tuple) and len(sl.elts) == 2 and isinstance(sl.elts[0], ast.Slice) and ast.unparse(sl.elts[0]) == ":":
+            m = self.expr(sl.elts[1], env)
+            if isinstance(m, Mask):
+                return m
+        raise TranslateError(f"unsupported index of a grouped array: {ast.unparse(sl)}")
+
     def binop(self, op, a, b, node):
         if isinstance(a, Ad) or isinstance(b, Ad):
             return self.binop_ad(op, a, b)
+        if isinstance(a, MaskedG) and isinstance(b, Masked) and isinstance(op, ast.Div) and a.mask.key() == b.mask.key():
+            return MaskedG(("div", a.e, b.e), a.mask)  # each column divided by its group's number
         if isinstance(op, ast.MatMult):
             if isinstance(a, Sparse) and isinstance(b, Arr):
                 return MatVal(a.name, b.e)
@@ -381,12 +461,41 @@ class Interp:
             return Jac(out)
         raise TranslateError(f"ill-typed operation {type(a).__name__} {k} {type(b).__name__} in {ast.unparse(node)[:100]}")
 
-    def call(self, node, env):
+    def call(self, node, env, statement=False):
         f = node.func
         fsrc = ast.unparse(f)
         args = node.args
+        kw = {k.arg: ast.unparse(k.value) for k in node.keywords}
+        if fsrc == "np.reshape" and len(args) == 2 and ast.unparse(args[1]) == "(dim, -1)" and kw == {"order": "'F'"} and isinstance(env.get("dim"), IntSym):
+            v = self.expr(args[0], env)
+            if isinstance(v, Arr) and v.e == ("var", 0):
+                return G(("var", 0))
+            raise TranslateError("np.reshape of something other than the values themselves")
+        if fsrc == "np.linalg.norm" and len(args) == 1 and kw == {"axis": "0"}:
+            v = self.expr(args[0], env)
+            if isinstance(v, G) and v.e == ("var", 0):
+                return GS(("un", "sqrt", ("var", 1)))  # sqrt of the group's sum of squares
+            raise TranslateError("np.linalg.norm of something other than the reshaped values")
         if node.keywords and fsrc != "np.isclose":
             raise TranslateError(f"keyword arguments in {ast.unparse(node)}")
+        if fsrc == "pp.matrix_operations.slice_sparse_matrix" and len(args) == 2:
+            j, m = self.expr(args[0], env), self.expr(args[1], env)
+            if isinstance(j, Jac) and isinstance(m, Mask):
+                return MaskedJac(j.coef, m)
+            raise TranslateError(f"unsupported {ast.unparse(node)}")
+        if fsrc == "pp.matrix_operations.merge_matrices" and len(args) == 4 and statement:
+            A, B, m = self.expr(args[0], env), self.expr(args[1], env), self.expr(args[2], env)
+            if not (isinstance(A, Jac) and isinstance(B, MaskedJac) and isinstance(m, Mask) and m.kind == "gt" and B.mask.key() == m.key()
+                    and ast.unparse(args[3]) == "'csr'"):
+                raise TranslateError(f"unsupported {ast.unparse(node)}")
+            # A[rows where mask, :] = B, IN PLACE
+            for r in list(A.coef) + [r for r in B.coef if r not in A.coef]:
+                old = c_of(A.coef[r]) if r in A.coef else ZERO
+                new = c_of(B.coef[r]) if r in B.coef else ZERO
+                A.coef[r] = ("ifgt", m.a, m.b, new, old)
+            return None
+        if fsrc.startswith("pp.ad.functions.") and isinstance(f, ast.Attribute) and f.attr in self.functions:
+            return self.call_def(self.functions[f.attr], [self.expr(a, env) for a in args], f"functions.{f.attr}")
         # constructors
         if fsrc in ("AdArray", "pp.ad.AdArray") and len(args) == 2:
             v, j = self.expr(args[0], env), self.expr(args[1], env)
@@ -417,6 +526,10 @@ class Interp:
                 return type(vs[0])(("un", UFUNS[name], vs[0].e))
             if name == "heaviside" and len(vs) == 2 and isinstance(vs[0], Arr) and isinstance(vs[1], Sc):
                 return Arr(("heaviside", vs[0].e, vs[1].e))
+            if name == "heaviside" and len(vs) == 1:
+                raise PyRaise("TypeError")  # numpy: heaviside() takes from 2 to 3 positional arguments
+            if name == "ones" and len(vs) == 1 and isinstance(vs[0], Opaque) and vs[0].what == "gshape":
+                return G(ONE)
             if name == "ones_like" and len(vs) == 1 and isinstance(vs[0], Arr):
                 return Arr(ONE)
             if name == "zeros_like" and len(vs) == 1 and isinstance(vs[0], Arr):
@@ -444,6 +557,21 @@ class Interp:
                 return Arr(obj.e)
             if name == "copy" and not args and isinstance(obj, Jac):
                 return Jac(obj.coef)
+            if name == "tocsr" and not args and isinstance(obj, Jac):
+                return obj  # scipy returns the matrix itself when it already is csr: NOT a copy
+            if name == "append" and len(args) == 1 and isinstance(obj, PyList) and statement:
+                obj.items.append(self.expr(args[0], env))
+                return None
+            if name == "nonzero" and not args and isinstance(obj, Mask):
+                return PyList([obj])  # the index array of a mask selects the same entries
+            if name == "_regularization" and isinstance(obj, RegObj):
+                fd = self.functions[obj.fname]
+                pars = [a.arg for a in fd.args.args]
+                vals = [self.expr(a, env) for a in args]
+                if len(vals) != 1:
+                    raise TranslateError("regularization called with several arguments")
+                it = iter(obj.params)
+                return self.call_def(fd, [vals[0] if q == "var" else next(it) for q in pars], f"functions.{obj.fname}")
             if isinstance(obj, Ad):
                 return self.method(obj, name, [self.expr(a, env) for a in args])
             raise TranslateError(f"unsupported method call {ast.unparse(node)[:100]}")
